@@ -193,3 +193,12 @@ func specShareGroup(spec ClientHelloSpec, i int) CurveID {
 	}
 	return 0
 }
+
+//verif:harness C01 edits_visible_with_injected_psk unwind=4000 instrs=600000000 paths=40000 wall=900
+//verif:stub (*math/rand.Rand).Shuffle zzStubShuffle
+//verif:stub (crypto.Hash).New zzStubHashNew
+//verif:stub (*utls.cipherSuiteTLS13).finishedHash zzStubFinishedHash
+//verif:expect end
+//verif:assume transcript hash and the Finished MAC are uninterpreted functions; the peer never answers
+//verif:doc Same scenario as C20 psk_binder_covers_final_hello, claimed here for its C01 half: with a real pre_shared_key (locked session, binders set) a documented edit made between BuildHandshakeState and Handshake is visible in the first record, which equals Hello.Raw.
+func zzC01EditsVisibleWithInjectedPsk() { zzPskEditAfterBuild() }
